@@ -311,14 +311,17 @@ theorem minerr_path_fuel (e : Env) (streams : Array Int) (idx0 k subidx : Nat) (
   ⟨(errPath_stable e streams idx0 k subidx hp fuel (k + 1) hf (by omega) _).1,
    (errPath_stable e streams idx0 k subidx hp (k + 1) (k + 1) (by omega) (by omega) _).2⟩
 
-/- Full statement for the `while len(bottleneck) > nbottlenecks` of STEP 4 (NOT proved):
+/- The `while len(bottleneck) > nbottlenecks` of STEP 4. Statement envisaged by the third stage:
      `chkCdsRange s.cds → s.bott.Nodup → (∀ b ∈ s.bott, b ≤ s.cds.size) → cds.size + 2 ≤ fuel →
         step4 … fuel s = step4 … (cds.size + 2) s ∧ (step4 … (cds.size + 2) s).isSome`
-   i.e. the loop runs at most once per distinct value a coarse link can take. Missing: the invariant "`bottleneck` has no
-   duplicates and contains only values of coarse links" carried through @4A..@4D, and the pigeonhole bound on its length.
-   Proved below: a result obtained with some fuel is obtained with every larger fuel (so the model's choice
-   `cds.size + 3` can only be too small, never give a different answer); that it is never too small is checked on
-   every generated case (`fuel` output of the driver). -/
+   i.e. the loop runs at most once per distinct value a coarse link can take. As it stands this is not provable: `step4`
+   also returns `none` when a tributary walk @4D runs out of fuel (needs a loop-free, well-formed fine network and valid
+   outlet pixels), and the values written into coarse links are coarse cells of pixels (`≤ cds.size` only for the coarse
+   grid of the fine grid). The FOURTH stage proves it with exactly these hypotheses added - theorem
+   `reloc_bottleneck_fuel` in `Props/C09_ihuTotal.lean` (invariant "`bottleneck` has no duplicates and holds only values
+   of coarse links" through @4A..@4D, pigeonhole `nodup_le_length`) - and from it `relocate_outlets_total`.
+   The fuel-monotonicity lemma below is kept (it is used by `reloc_bottleneck_fuel`): a result obtained with some fuel is
+   obtained with every larger fuel. -/
 theorem reloc_bottleneck_fuel_partial (e : Env) (idx00 : Nat) (cells pixs : List Nat) (tr : Tribs) (f1 f2 : Nat)
     (s r : S4) (h : step4 e idx00 cells pixs tr f1 s = some r) (hle : f1 ≤ f2) :
     step4 e idx00 cells pixs tr f2 s = some r :=
